@@ -117,7 +117,7 @@ CLAIMED = {
     ),
     "C04": (
         "round-trip property-based testing through the real chain + dispatcher + reverse proxy (rapid), requests written byte by byte; Status well-formedness for terminated requests",
-        "Generated-input search: methods, k8s-shaped paths with escaped / unusual bytes, queries with repeated / malformed pairs, multi-valued and hop-by-hop headers, bodies up to 1 MiB (content-length / chunked) and scripted upstream replies (status 200-599, headers, bodies in flushed chunks); what the stub received must equal what was sent and what the client received must equal what the stub sent, modulo the stated allow-lists; seven termination classes must yield a decodable meta/v1 Status (JSON or protobuf as negotiated) with code == HTTP status, Retry-After where stated, and no forwarding. Exploration.",
+        "Generated-input search: methods, k8s-shaped paths with escaped / unusual bytes, queries with repeated / malformed pairs, multi-valued and hop-by-hop headers, bodies up to 1 MiB (content-length / chunked) and scripted upstream replies (status 200-599, headers, bodies in flushed chunks); what the stub received must equal what was sent and what the client received must equal what the stub sent, modulo the stated allow-lists; answers of unknown length are relayed as they come (status and headers before any body byte exists, every flushed chunk before the next is sent, within 2 s); seven termination classes must yield a decodable meta/v1 Status (JSON or protobuf as negotiated) with code == HTTP status, Retry-After where stated, and no forwarding. Exploration.",
         "Trusted: rapid, net/http. Decoded-path equality; Upgrade requests, CORS headers and HTTP/2 are outside the generated domain.",
         "DESIGN.md 4/C04",
     ),
